@@ -123,6 +123,12 @@ func c12(ctx *Ctx) (*Outcome, error) {
 			pp.Extra = append(pp.Extra, jsonx.KV{K: "patternProperties", V: jsonx.Obj{{K: "^at_", V: str(jsonx.KV{K: "format", V: "date-time"})}, {K: "^note_", V: str()}, {K: "^kind_", V: str(jsonx.KV{K: "enum", V: []any{"a", "b"}})},
 				{K: "^n_", V: jsonx.Obj{{K: "type", V: "integer"}, {K: "minimum", V: jsonx.N(0)}, {K: "maximum", V: jsonx.N(255)}}}, {K: "^o_", V: jsonx.Obj{{K: "type", V: "object"}, {K: "properties", V: jsonx.Obj{{K: "q", V: str()}}}}}}})
 			big.Props = append(big.Props, sg.Prop{Name: "marks", S: pp})
+			// ... and one whose patterns all state the same type but differ in what shapes a Go type
+			ps := &sg.Schema{Types: []string{"object"}}
+			ps.Extra = append(ps.Extra, jsonx.KV{K: "patternProperties", V: jsonx.Obj{{K: "^at_", V: str(jsonx.KV{K: "format", V: "date-time"})}, {K: "^note_", V: str()}, {K: "^kind_", V: str(jsonx.KV{K: "enum", V: []any{"a", "b"}})}, {K: "^ip_", V: str(jsonx.KV{K: "format", V: "ipv4"})}}})
+			pi := &sg.Schema{Types: []string{"object"}}
+			pi.Extra = append(pi.Extra, jsonx.KV{K: "patternProperties", V: jsonx.Obj{{K: "^a", V: jsonx.Obj{{K: "type", V: "integer"}, {K: "minimum", V: jsonx.N(0)}, {K: "maximum", V: jsonx.N(255)}}}, {K: "^b", V: jsonx.Obj{{K: "type", V: "integer"}}}, {K: "^c", V: jsonx.Obj{{K: "type", V: "integer"}, {K: "enum", V: []any{jsonx.N(1), jsonx.N(2)}}}}}})
+			big.Props = append(big.Props, sg.Prop{Name: "stamps", S: ps}, sg.Prop{Name: "counts", S: pi})
 			un := &sg.Schema{Types: []string{"object"}, Props: []sg.Prop{{Name: "a", S: &sg.Schema{Types: []string{"string"}}}, {Name: "b", S: &sg.Schema{Types: []string{"integer"}}}}}
 			un.Extra = append(un.Extra,
 				jsonx.KV{K: "dependentRequired", V: jsonx.Obj{{K: "a", V: []any{"b"}}, {K: "b", V: []any{"a"}}}},
